@@ -31,6 +31,12 @@ import copy
 _INV = {ast.Eq: ast.NotEq, ast.NotEq: ast.Eq, ast.Is: ast.IsNot, ast.IsNot: ast.Is, ast.In: ast.NotIn, ast.NotIn: ast.In}
 
 
+def _view_like(e) -> bool:
+    if isinstance(e, ast.Call) and isinstance(e.func, ast.Attribute) and e.func.attr in ("values", "items", "keys") and not e.args and not e.keywords:
+        e = e.func.value
+    return _plain_ref(e)
+
+
 def _negate(t):
     """the negation of a test, pushed inwards: De Morgan over and / or, inverted ==, is, in"""
     if isinstance(t, ast.UnaryOp) and isinstance(t.op, ast.Not):
@@ -287,6 +293,10 @@ class Normalizer(ast.NodeTransformer):
 
     def _visit_For(self, node):
         self.generic_visit(node)
+        # for v in [*A, *B] / (*A, *B): BODY  is  for v in chain(A, B): BODY  (the body does not change A or B: it runs after both are read)
+        if isinstance(node.iter, (ast.List, ast.Tuple)) and len(node.iter.elts) >= 2 and all(isinstance(e, ast.Starred) for e in node.iter.elts) and all(_view_like(e.value) for e in node.iter.elts):
+            node.iter = ast.copy_location(ast.Call(func=ast.Name(id="chain", ctx=ast.Load()), args=[e.value for e in node.iter.elts], keywords=[]), node.iter)
+            ast.fix_missing_locations(node)
         # for v in (A if c else B): BODY   ->   if c: for v in A: BODY  else: for v in B: BODY ;   a loop over range(0) runs never
         if isinstance(node.iter, ast.IfExp) and not node.orelse and sum(1 for b in node.body for _n in ast.walk(b)) <= 150:
             def _loop(it_):
@@ -876,6 +886,21 @@ class Normalizer(ast.NodeTransformer):
                 cur.orelse = []
                 flat.extend(self._block(rest))
         stmts = flat
+        # return <position guard> and REST   ->   if not <guard>: return False ; return REST      (`indx >= 10 and ...`: the guard is a
+        # comparison of a local with an integer constant, so the `and` yields False exactly when the guard fails)
+        split = []
+        for st in stmts:
+            v = st.value if isinstance(st, ast.Return) else None
+            if isinstance(v, ast.BoolOp) and isinstance(v.op, ast.And) and len(v.values) >= 2:
+                g = v.values[0]
+                if isinstance(g, ast.Compare) and len(g.ops) == 1 and isinstance(g.left, ast.Name) and isinstance(g.comparators[0], ast.Constant) and isinstance(g.comparators[0].value, int) and not isinstance(g.comparators[0].value, bool) and isinstance(g.ops[0], (ast.Lt, ast.LtE, ast.Gt, ast.GtE)):
+                    inv = {ast.Lt: ast.GtE, ast.LtE: ast.Gt, ast.Gt: ast.LtE, ast.GtE: ast.Lt}[type(g.ops[0])]
+                    guard = ast.copy_location(ast.If(test=ast.copy_location(ast.Compare(left=g.left, ops=[inv()], comparators=g.comparators), g), body=[ast.copy_location(ast.Return(value=ast.copy_location(ast.Constant(value=False), st)), st)], orelse=[]), st)
+                    rest = v.values[1] if len(v.values) == 2 else ast.copy_location(ast.BoolOp(op=ast.And(), values=v.values[1:]), v)
+                    split.extend([guard, ast.copy_location(ast.Return(value=rest), st)])
+                    continue
+            split.append(st)
+        stmts = split
         out = []
         for st in stmts:
             if (
